@@ -28,6 +28,9 @@ func checkC05(c *Ctx) {
 	c.checkMutationProtocol()
 	c.checkOwnerNoticeOrder()
 	c.checkDeltaSides()
+	// the "old" side of a delta is taken before the modes are modified
+	c.checkSnapshotBeforeChange()
+	c.checkIntersectionPairsAreGenerations("C05.3d-intersections-pair-generations")
 }
 
 func (c *Ctx) checkModeTables() {
